@@ -737,6 +737,50 @@ fn op_compound_rt(req: &Value) -> Value {
     }
 }
 
+/// C17: identifiers that are NOT units must be refused every time they are decoded, also on a thread that has decoded many
+/// units before (a decode memo that claims its slot before it knows the id; seed C17-i).
+fn op_c17_unknown_ids(req: &Value) -> Value {
+    let known = strs(&req["known"]);
+    let unknown = strs(&req["unknown"]);
+    let repeats = req["repeats"].as_u64().unwrap_or(3);
+    let mut accepted = Vec::new();
+    let mut decoded = 0u64;
+    let r = catch_unwind(|| {
+        let mut accepted = Vec::new();
+        let mut decoded = 0u64;
+        let decode = |key: &str| -> Result<Compound, String> {
+            let v = serdert::compound_value(&[(key.to_owned(), 1, 0), ("Meter".to_owned(), -2, 3)]).ok_or("bad key")?;
+            let bytes = serde_cbor::to_vec(&v).map_err(|e| e.to_string())?;
+            serde_cbor::from_slice::<Compound>(&bytes).map_err(|e| e.to_string())
+        };
+        for (i, u) in unknown.iter().enumerate() {
+            // warm up with a few known units between the unknown ones
+            for k in 0..5 {
+                if !known.is_empty() {
+                    let _ = decode(&known[(i * 5 + k) % known.len()]);
+                    decoded += 1;
+                }
+            }
+            for attempt in 0..repeats {
+                decoded += 1;
+                if let Ok(c) = decode(u) {
+                    accepted.push(json!({"id": u, "attempt": attempt, "decoded_as": c.to_string()}));
+                    break;
+                }
+            }
+        }
+        (accepted, decoded)
+    });
+    match r {
+        Ok((a, d)) => {
+            accepted = a;
+            decoded = d;
+        }
+        Err(p) => return json!({"panic": vharness::panic_message(&p)}),
+    }
+    json!({"decoded": decoded, "unknown": unknown.len(), "accepted": accepted})
+}
+
 fn op_cbor_decode_compound(req: &Value) -> Value {
     let bytes = match unhex(req["hex"].as_str().unwrap_or("")) {
         Some(b) => b,
@@ -973,6 +1017,7 @@ fn handle(st: &mut State, req: &Value) -> Value {
         "c17_compounds" => op_c17_compounds(req),
         "c17_rationals" => op_c17_rationals(req),
         "c17_constants" => op_c17_constants(req),
+        "c17_unknown_ids" => op_c17_unknown_ids(req),
         "compound_rt" => op_compound_rt(req),
         "cbor_decode_compound" => op_cbor_decode_compound(req),
         "shipped" => op_shipped(req),
